@@ -6,11 +6,12 @@ Driver of C08. One request per line:
   val <postfix program>          evaluate an operation tree, print the resulting object
   fmt <spec cps> <program>       `format(x, spec)` as screen cells
   eq <program leaving two values> `a == b`
+  alias <n> <program leaving x b>  `u = x.fixed_len(n); u += b`; prints x and u
   pyslice <cps> <i|n> <j|n>      Python's own `s[i:j]`   (the specification function `pySlice`)
   pyidx <cps> <i>                Python's own `s[i]`     (`pyIndex`)
 
 Postfix tokens: `s:<cps>`  `c:<col>:<cps>`  `ls:<n>`  `tp:<n>`  `mk:<n>`  `add`  `iadd`
-`join:<l|t>:<n>` (stack: sep item1 … itemn)  `idx:<i>`  `sl:<i|n>:<j|n>`  `fl:<n>`  `iter`.
+`join:<l|t>:<n>` (stack: sep item1 … itemn)  `idx:<i>`  `sl:<i|n>:<j|n>`  `fl:<n>`  `iter`  `dupiadd` (`x += x`)  `dupiaddl` (`x += [x]`).
 The program is turned into a `CHText.Expr` and handed to `CHText.eval` (the function the theorems
 are about).
 -/
@@ -48,11 +49,11 @@ def stepTok (st : List Expr) (tok : String) : Option (List Expr) :=
   | ["iter"] => match st with
     | a :: rest => some (Expr.iter a :: rest)
     | _ => none
-  | ["dupiadd"] => match st with      -- `x += x` (opt-in aliasing stream): the value semantics
+  | ["dupiadd"] => match st with      -- `x += x`: the operand is the target (a snapshot = the value)
     | a :: rest => some (Expr.iadd a a :: rest)
     | _ => none
-  | ["flalias", _] => match st with   -- `u = x.fixed_len(n); u += b; x`: a value is not changed
-    | _ :: a :: rest => some (a :: rest)
+  | ["dupiaddl"] => match st with     -- `x += [x]`
+    | a :: rest => some (Expr.iadd a (Expr.list false [a]) :: rest)
     | _ => none
   | ["join", k, n] => do
     let (items, rest) ← popN (← n.toNat?) st
@@ -116,6 +117,14 @@ def handle (line : String) : String :=
       showFail (fun r => if r then "B 1 1 0" else "B 0 0 1")
         (eval a >>= fun x => eval b >>= fun y => pyEq x y)
     | _ => "bad-op"
+  | "alias" :: n :: toks =>   -- `u = x.fixed_len(n); u += b`, then x and u: x is not changed
+    match parseInt n, parseProg toks with
+    | some k, some [b, a] =>
+      showFail id (do
+        let x ← eval a
+        let u ← eval (Expr.iadd (Expr.fixedLen a k) b)
+        pure (showPart x ++ " | " ++ showPart u))
+    | _, _ => "bad-op"
   | ["pyslice", s, i, j] =>
     match parseCps s, parseOptInt i, parseOptInt j with
     | some cs, some x, some y => "S " ++ showCps (pySlice cs x y)
